@@ -87,6 +87,9 @@ def _args():
         a.update(kw)
         if CONTEXT[0] == "alt":   # the other arguments take their less usual values
             return Data3D(-7, 1, a["volume"], a["rotationMatrix"], a["translationVector"], 2.5, Flags.filtered, Data3dBlockFormat.byTrackWithoutLinks)
+        if CONTEXT[0].startswith("fmt:"):   # every member of the format enum, also the layouts the library cannot write
+            members = list(Data3dBlockFormat)
+            return Data3D(100, 10, a["volume"], a["rotationMatrix"], a["translationVector"], 0.0, Flags.rawData, members[int(CONTEXT[0][4:]) % len(members)])
         return Data3D(100, 10, a["volume"], a["rotationMatrix"], a["translationVector"])
 
     def f3(**kw):
@@ -94,12 +97,22 @@ def _args():
         a.update(kw)
         if CONTEXT[0] == "alt":
             return ForceTorque3D(0, 2 ** 31 - 1, a["volume"], a["rotationMatrix"], a["translationVector"], -0.0)
+        if CONTEXT[0].startswith("fmt:"):
+            from basictdf.tdfForce3D import ForceTorque3DBlockFormat
+
+            members = list(ForceTorque3DBlockFormat)
+            return ForceTorque3D(100, 10, a["volume"], a["rotationMatrix"], a["translationVector"], 0.0, members[int(CONTEXT[0][4:]) % len(members)])
         return ForceTorque3D(100, 10, a["volume"], a["rotationMatrix"], a["translationVector"])
 
     def cal(**kw):
         a = dict(calibration_volume_size=good((3,)), calibration_volume_rotation_matrix=good((3, 3)),
                  calibration_volume_translation_vector=good((3,)))
         a.update(kw)
+        if CONTEXT[0].startswith("fmt:"):
+            k = int(CONTEXT[0][4:])
+            fm, dm = list(CalibrationDataBlockFormat), list(DistorsionModel)
+            return CalibrationDataBlock(dm[k % len(dm)], a["calibration_volume_size"], a["calibration_volume_rotation_matrix"],
+                                        a["calibration_volume_translation_vector"], np.array([], dtype="<i2"), [], fm[(k // len(dm)) % len(fm)])
         if CONTEXT[0] == "alt":
             return CalibrationDataBlock(DistorsionModel.Seelab1Distorsion, a["calibration_volume_size"], a["calibration_volume_rotation_matrix"],
                                         a["calibration_volume_translation_vector"], np.array([], dtype="<i2"), [], CalibrationDataBlockFormat.BTS)
@@ -170,6 +183,17 @@ def enum_shapes(tier):
         if arg.split(".")[0] in ("Data3D", "ForceTorque3D", "CalibrationDataBlock"):
             for shape in SHAPES:   # same lattice with the OTHER arguments at unusual values (other format, flag, start time, counts)
                 yield {"arg": arg, "shape": list(shape), "dtype": "<f8", "context": "alt"}
+            for k in range(8):   # ... and with every value of the format (and distortion model) argument, unwritable layouts included
+                for shape in SHAPES:
+                    yield {"arg": arg, "shape": list(shape), "dtype": "<f8", "context": f"fmt:{k}"}
+                for kind in KINDS:
+                    yield {"arg": arg, "kind": kind, "context": f"fmt:{k}"}
+        # the same questions after decodes that FAILED (truncated input of every block type): whatever a parser leaves set when it is
+        # interrupted must not switch validation off
+        for shape in SHAPES:
+            yield {"arg": arg, "shape": list(shape), "dtype": "<f8", "prelude": "failed-parses"}
+        for kind in KINDS:
+            yield {"arg": arg, "kind": kind, "prelude": "failed-parses"}
         for kind in ("view-readonly", "view-strided", "masked", "subclass"):
             yield {"arg": arg, "kind": kind}
         for kind in KINDS:
@@ -179,9 +203,41 @@ def enum_shapes(tier):
             yield {"arg": arg, "kind": kind}
 
 
+_TRUNCATED = []
+
+
+def failed_parses():
+    """decode truncated encodings of all nine block types (each cut at several points); every one of them fails or not - nobody cares"""
+    from .. import specs
+    from .c20 import _roomy_block
+
+    if not _TRUNCATED:
+        for t in specs.TYPES:
+            blk = _roomy_block(t, 3)
+            data = specs.lib_write(blk)
+            fmt = getattr(blk.format, "value", blk.format)
+            cuts = sorted({len(data) - 1, len(data) - 5, len(data) // 2, len(data) // 3, max(1, len(data) - 100), 20, 9})
+            _TRUNCATED.extend((t, fmt, data[:c]) for c in cuts if 0 < c < len(data))
+        # Seelab-format calibration block cut inside a camera record
+        from .c14 import _minimal
+        cam = {"rot": [1] * 9, "trans": [0] * 3, "focus": [0] * 2, "center": [0] * 2, "radial": [0, 0], "decentering": [0, 0], "prism": [0, 0], "vp": [0, 0, 1, 1]}
+        data = specs.lib_write(specs.build(dict(_minimal("calib"), format=1, cams=[cam, dict(cam)], map=[0, 1])))
+        _TRUNCATED.extend(("calib", 1, data[:c]) for c in (len(data) - 3, len(data) - 100, len(data) - 200, len(data) - 250))
+    for t, fmt, data in _TRUNCATED:
+        try:
+            specs.lib_class(t)._build(io.BytesIO(data), fmt)
+        except Exception:  # noqa
+            pass
+
+
+_SIZED_OK = {}
+
+
 def run_shape(ctx, case):
     arg = case["arg"]
     CONTEXT[0] = case.get("context", "std")
+    if case.get("prelude") == "failed-parses":
+        failed_parses()
     req, factory, sized, seq_ok = table()[arg]
     if "kind" in case and case["kind"] in ("view-readonly", "view-strided", "masked", "subclass"):
         # arrays of exactly the required shape in unusual guises: must be accepted and encode correctly
@@ -223,12 +279,25 @@ def run_shape(ctx, case):
         ctx.fail(f"{arg}/refuses-required-{'shape' if 'shape' in case else case['kind']}", f"{arg}: {desc} (the required form) was refused: {type(exc).__name__}: {exc}")
     if not should_accept and exc is None:
         ctx.fail(f"{arg}/accepts-{'wrong-shape' if 'shape' in case else 'kind-' + case['kind']}", f"{arg}: {desc} was accepted; required is shape {req}")
+    if exc is None and CONTEXT[0].startswith("fmt:"):
+        # a layout the library cannot write cannot be held to "encodes to its declared size": find out with an all-valid object
+        key = (arg, CONTEXT[0])
+        if key not in _SIZED_OK:
+            try:
+                sized(factory(np.ones(req)))
+                _SIZED_OK[key] = True
+            except Exception:  # noqa
+                _SIZED_OK[key] = False
+        if not _SIZED_OK[key]:
+            obj, exc = None, "unwritable-layout"
     if exc is None:
         try:
             sized(obj)
         except Exception as e:  # noqa
             ctx.fail(f"{arg}/accepted-object-missized", f"{arg}: {desc} was accepted but the object does not encode to its declared size / decode: {type(e).__name__}: {e}")
-    ctx.case(case, (not should_accept) or "kind" in case, labels=[arg, "accepted" if exc is None else "refused"])
+    ctx.case(case, (not should_accept) or "kind" in case, labels=[arg, "accepted" if exc is None else "refused" if exc != "unwritable-layout" else "accepted-unwritable-layout",
+                                                                   "context:" + CONTEXT[0].split(":")[0]] + (["after-failed-parses"] if case.get("prelude") else []))
+    CONTEXT[0] = "std"
 
 
 # ---------------------------------------------------------------------------------------
